@@ -246,7 +246,12 @@ def make_ref(expr):
     # because it is used as a part of a parent expression, however,
     # we'll skip registering such names.
     if ref_name is None:
-        return ref
+        other = expr.context._ref_values.get(ref)
+        if other is None or other is expr:
+            return ref
+        # The generated name is already registered for another
+        # expression. To avoid using the same variable for two
+        # different expressions, register an unique name.
 
     return expr.context._register_reference(expr, ref)
 
